@@ -493,6 +493,26 @@ fn run_pal(tier: Tier, chunk: u64, t: &mut Tally, hashes: &mut Vec<Option<u64>>)
         let what = format!("TPL CI8 {}x{} (stored {} bytes), index plane {}", w, h, len, plane);
         hashes.push(judge(observe_tpl(w, h, &payload, &pal), &exp, w, "palette-position", &what, &case, t));
     }
+    // a palette SMALLER than 256 entries: the visible pixels use valid indices, the padding
+    // texels of partially filled blocks (not part of the image) hold 0xFF / 0x10
+    if w % 8 != 0 || h % 4 != 0 {
+        for (pal_n, pad) in [(16usize, 0xFFu8), (16, 0x10), (255, 0xFF), (1, 0x01)] {
+            let small = &pal[..pal_n];
+            let mut payload = vec![pad; len];
+            for y in 0..h {
+                for x in 0..w {
+                    let s = rp::ci8_source_index(w, x, y);
+                    payload[s] = (s % pal_n) as u8;
+                }
+            }
+            let exp = rp::decode_ci8(w, h, &payload, small).unwrap();
+            t.cases += 1;
+            t.nontrivial += nontrivial(&exp) as u64;
+            t.class("palette:cropped,small-palette,padding-outside-palette");
+            let what = format!("TPL CI8 {}x{} with a {}-entry palette, padding texels {:#04x}", w, h, pal_n, pad);
+            hashes.push(judge(observe_tpl(w, h, &payload, small), &exp, w, "palette-small", &what, &case, t));
+        }
+    }
 }
 
 // ---- ETC1 grid ------------------------------------------------------------------------
